@@ -391,7 +391,12 @@ def handleX (ts : List String) : Option Verdict := do
             | some body, none => if body.getLast? == some '\n' then .ok else .prop "stdout does not end with a newline"
             | none, _ => .prop "stdout does not start with the header line and an empty line"),
     fun _ =>
-      if m == obs then .ok
+      -- the model's character classes are those of Rust only on the supported alphabet (Model/Chars.lean)
+      let inAlphabet := match input with
+        | .content evs => (match intoStruct evs with | .ok t => Xsg.Driver.Elem.inAlphabet t | .error _ => true)
+        | _ => true
+      if !inAlphabet then .gen "names-outside-alphabet"
+      else if m == obs then .ok
       else .corr s!"cli model=(exit {m.exit}, stdout {repr (showName m.stdout)}, stderr {m.stderrNonEmpty}, file {repr (m.fileAfter.map showName)}) impl=(exit {obs.exit}, stdout {repr (showName obs.stdout)}, stderr {obs.stderrNonEmpty}, file {repr (obs.fileAfter.map showName)})" ])
 
 /-! ### C02 / C13: `D <id> <prop> PROG <quick-xml rendering> K<k> <doc>* RES <compiled> (<ok> <captured>)*` -/
